@@ -1337,6 +1337,25 @@ static void cmd_sockbuf (int argc, char **argv)
   ob_puts (&out, "OK");
 }
 
+/* SRVSOCKBUF <sndbuf> : shrink the send buffer of every bus-side connection socket (all connected AF_UNIX stream
+ * sockets of this process that are not client slots), so that a client that does not read really backs up inside the bus */
+static void cmd_srvsockbuf (int argc, char **argv)
+{
+  int fd, n = 0, v = argc > 1 ? atoi (argv[1]) : 4608;
+  for (fd = 3; fd < 1024; fd++)
+    {
+      int i, mine = 0, type = 0, acc = 0; socklen_t l = sizeof type; struct sockaddr_un sa; socklen_t sl = sizeof sa;
+      for (i = 0; i < nclients; i++) if (clients[i].open && clients[i].fd == fd) mine = 1;
+      if (mine) continue;
+      if (getsockopt (fd, SOL_SOCKET, SO_TYPE, &type, &l) < 0 || type != SOCK_STREAM) continue;
+      l = sizeof acc;
+      if (getsockopt (fd, SOL_SOCKET, SO_ACCEPTCONN, &acc, &l) == 0 && acc) continue;
+      if (getpeername (fd, (struct sockaddr *) &sa, &sl) < 0 || sa.sun_family != AF_UNIX) continue;
+      if (setsockopt (fd, SOL_SOCKET, SO_SNDBUF, &v, sizeof v) == 0) n++;
+    }
+  ob_printf (&out, "OK %d", n);
+}
+
 int main (int argc, char **argv)
 {
   char *line;
@@ -1376,6 +1395,7 @@ int main (int argc, char **argv)
       else if (!strcmp (args[0], "DUMP")) cmd_dump ();
       else if (!strcmp (args[0], "MKFD")) cmd_mkfd (n, args);
       else if (!strcmp (args[0], "SOCKBUF")) cmd_sockbuf (n, args);
+      else if (!strcmp (args[0], "SRVSOCKBUF")) cmd_srvsockbuf (n, args);
       else if (!strcmp (args[0], "NODRAIN"))
         {
           /* NODRAIN <c> <0|1> : a stalled client is not read by STEP/RECVALL/... until un-stalled */
